@@ -348,6 +348,69 @@ def gen_case(rng, malformed: bool = False, ticks: int = 40) -> dict:
     return {"pcode": "\n".join(lines), "sched": sched, "malformed": malformed}
 
 
+GAP_PROGRAMS = [
+    "Block: B1\n    Wait: {w}s\n    Mark: late\n    End block\nMark: after\n",
+    "Watch: T0 > 2\n    Mark: w\n    Simulate: T1 = 2\nWait: {w}s\nBlock: B2\n    Mark: late\n    Wait: 2s\n    End block\n",
+    "Alarm: T1 > 2\n    Mark: alarm\nBlock: B1\n    Wait: {w}s\n    Simulate: Block = X\n    Wait: 1s\n    Simulate off: Block\n    End block\n",
+    "Mark: a\nWait: {w}s\nIncrement run counter\nBase: s\nMark: late\n",
+]
+
+
+def gen_gap_case(rng, max_gap: int = 300, total: int = 400) -> dict:
+    """Reports after long gaps ("reports taken after arbitrary numbers of ticks"): gaps of 1..max_gap ticks of an
+    active run (clock, time and accumulator tags are queued every tick), with changes placed in the last ticks of
+    each gap: register values (condition tags, totalizer), a user command, and a method whose Wait ends near the
+    end of the first long gap.  Every gap ends with an incremental report or a snapshot."""
+    from harness.gen_pcode import gen_program
+    gaps: list[int] = []
+    left = total
+    first = rng.choice([rng.randrange(45, max_gap + 1), rng.randrange(60, 130), rng.randrange(200, max_gap + 1)]
+                       if max_gap >= 200 else [rng.randrange(45, max_gap + 1)])
+    first = min(first, total)
+    gaps.append(first)
+    left -= first
+    while left > 0:
+        g = min(left, rng.choice([1, 2, 5, rng.randrange(1, 60), rng.randrange(41, max_gap + 1)]))
+        gaps.append(g)
+        left -= g
+    if rng.random() < 0.5:
+        rng.shuffle(gaps)
+    dt = 0.125
+    if rng.random() < 0.6:
+        w = max(1, int((gaps[0] - rng.randrange(2, 8)) * dt))
+        pcode = rng.choice(GAP_PROGRAMS).format(w=w)
+    else:
+        pcode, _ = gen_program(rng, max_lines=rng.choice([8, 12]))
+    sched = []
+    tot = 0.0
+    vals = {"T0": 0, "T1": 0, "T2": 0}
+    paused = False
+    for g in gaps:
+        for k in range(g):
+            hw = {}
+            tail = g - k            # 1 = last tick of the gap
+            if tail <= 3 and rng.random() < 0.8:
+                t = rng.choice(["T0", "T1", "T2"])
+                vals[t] = (vals[t] + rng.randrange(1, 4)) % 5
+                hw[t] = vals[t]
+            elif rng.random() < 0.05:
+                t = rng.choice(["T0", "T1", "T2"])
+                vals[t] = rng.randrange(0, 4)
+                hw[t] = vals[t]
+            if rng.random() < 0.3 or tail == 1:
+                tot += rng.choice([0.125, 0.25])
+                hw["Tot"] = tot
+            user = None
+            if g > 40 and tail == 2 and rng.random() < 0.4:
+                user = "Unpause" if paused else rng.choice(["Pause", "Hold", "Unhold"])
+                paused = user == "Pause"
+            rep = None
+            if tail == 1:
+                rep = "snap" if rng.random() < 0.3 else "upd"
+            sched.append({"dt": dt, "hw": hw, "user": user, "report": rep})
+    return {"pcode": pcode, "sched": sched, "malformed": False, "gaps": gaps}
+
+
 def run_case(case: dict, record: bool = False, skew: float = 0.0) -> dict:
     """Run the real engine.  Returns per-report observations for the oracles and, with `record`, the operation
     trace and the canonical answers for the model."""
